@@ -16,7 +16,8 @@ RULE = _base.SPACE_TEXT + (
     "main phase at E; plus the twin relation: when every non-forever job of "
     "the scheduler finishes strictly before E in all behaviours of the twin "
     "without the timeout, the two twins have the same set of timed "
-    "behaviours over all tie schedules")
+    "behaviours over all tie schedules. nested schedulers also with a Watch "
+    "attached (the watch reads the same virtual clock)")
 globals().update(_base.std(monitors.c08))
 
 JOB = {'dur': [0, 2, 3, 'never'], 'cdelay': [1], 'sd': [1, 3],
